@@ -1110,6 +1110,13 @@ func (broker *Broker) startTrack(wg *sync.WaitGroup) {
 		LOOP:
 			for key, pFile := range progress {
 				if pFile.sent < pFile.size {
+					if in == nil {
+						// The senders are done: the missing bytes of this file will
+						// not come any more in this run (a part was dropped from a
+						// failed payload because the file had changed).  It is still
+						// in the cache, not done, and is picked up from there.
+						delete(progress, key)
+					}
 					continue
 				}
 				wait = time.After(time.Millisecond)
